@@ -53,6 +53,8 @@ struct Stats {
     ref_failed: usize,
     mid_surrogate_skipped: usize,
     formatting_checked: usize,
+    hover_checked: usize,
+    defref_checked: usize,
     pos_classes: BTreeMap<String, usize>,
     step_kinds: BTreeMap<&'static str, usize>,
     probe_request_while_analyzer_unwinding: usize,
@@ -141,6 +143,8 @@ fn run_history(hi: usize, h: &History, specs: &[SchedSpec], stats: &mut Stats, f
     stats.ref_failed += js.ref_failed;
     stats.mid_surrogate_skipped += js.mid_surrogate_skipped;
     stats.formatting_checked += js.formatting_checked;
+    stats.hover_checked += js.hover_checked;
+    stats.defref_checked += js.defref_checked;
 }
 
 fn merge(a: &mut Stats, b: Stats) {
@@ -167,6 +171,8 @@ fn merge(a: &mut Stats, b: Stats) {
     a.ref_failed += b.ref_failed;
     a.mid_surrogate_skipped += b.mid_surrogate_skipped;
     a.formatting_checked += b.formatting_checked;
+    a.hover_checked += b.hover_checked;
+    a.defref_checked += b.defref_checked;
     for (k, v) in b.pos_classes {
         *a.pos_classes.entry(k).or_default() += v;
     }
@@ -434,6 +440,8 @@ fn run(tier: Tier, seed: u64) -> i32 {
                 "mid_surrogate_positions_not_compared": stats.mid_surrogate_skipped,
                 "diagnostics_compared_with_command_line_check": stats.diagnostics_compared,
                 "formatting_edits_applied_and_compared": stats.formatting_checked,
+                "hover_answers_compared_with_analysis_sets": stats.hover_checked,
+                "references_answers_cross_checked_with_definition": stats.defref_checked,
             },
             "text_pool_size": pool.texts.len(),
             "second_layer_real_binary_over_stdio": {"histories": stdio_runs, "write_calls_with_seeded_chunking": stdio_writes, "note": "scheduling of the real process is not controlled; integration evidence only"},
